@@ -1762,3 +1762,4 @@ end Agd.Filter
 #print axioms Agd.Tie.TrC02.allowed_and_rewritten
 #print axioms Agd.Tie.TrC02.response_stage
 #print axioms Agd.Tie.TrC02.filter_choice
+#print axioms Agd.Tie.TrC02.wrap_effect_order
